@@ -441,3 +441,106 @@ Proof.
   destruct (add_nodes w ti target sti (map rid (c0 :: ch)) BNone (Some deep) []) as [r2 w1].
   cbn [fst snd] in *. subst r2. destruct r1; now split.
 Qed.
+
+(* ---- Tree.copy / Node.copy: a new tree built below a fresh root ---- *)
+Lemma Rep_new_tree h' kids ty c : Below (h_empty ty c) h' 0 kids -> NoDup (ids kids) -> ~ In 0 (ids kids) ->
+  Rep h' (TS kids ([] ++ ids kids) (fold_left (fun a s => idx_add (rdid s) (rid s) a) (pre_f kids) []) ty c).
+Proof.
+  intros Bl ND Z.
+  constructor; cbn [forest_of reg idx typed calc].
+  - now rewrite (b_reg _ _ _ _ Bl).
+  - now rewrite (b_idx _ _ _ _ Bl).
+  - now rewrite (b_typed _ _ _ _ Bl).
+  - now rewrite (b_calc _ _ _ _ Bl).
+  - intros q. destruct (Nat.eq_dec q 0) as [->|Q0].
+    + rewrite (b_dst _ _ _ _ Bl). cbn [h_empty hch app]. now rewrite (kids_top kids 0 Z).
+    + destruct (in_dec Nat.eq_dec q (ids kids)) as [Iq|Iq].
+      * unfold ids in Iq. apply in_map_iff in Iq. destruct Iq as (y & <- & Hy).
+        rewrite (proj2 kids_node kids 0 y ND Z Hy). apply (b_node _ _ _ _ Bl y Hy).
+      * rewrite (b_ch_out _ _ _ _ Bl q Q0 Iq). cbn [h_empty hch]. symmetry. apply kids_none. intros r Hr E.
+        apply rows_par in Hr. destruct Hr as [X|X]; [congruence|]. apply Iq. now rewrite <- E.
+  - intros r Hr. destruct (node_of_row kids 0 r Hr) as (y & Hy & Ry & Iy). destruct (b_node _ _ _ _ Bl y Hy) as (_ & N2 & N3).
+    rewrite <- Ry, N2, N3, Ry. refine (conj (b_par _ _ _ _ Bl r Hr) (conj eq_refl Iy)).
+  - destruct (b_out _ _ _ _ Bl 0 Z) as (O1 & O2 & _). rewrite O1, O2. cbn. now split.
+  - rewrite (b_all _ _ _ _ Bl). cbn [h_empty hall app]. apply incl_refl.
+Qed.
+
+Lemma RepW_app hw w h t nx : RepW hw w -> Rep h t -> RepW (HW (htrees hw ++ [h]) nx) (W (trees w ++ [t]) nx).
+Proof. intros [E F] R. constructor; [reflexivity|]. cbn. apply Forall2_app; [assumption|]. constructor; [assumption|constructor]. Qed.
+
+Lemma RepW_length hw w : RepW hw w -> length (htrees hw) = length (trees w).
+Proof. intros [_ F]. induction F; cbn; congruence. Qed.
+
+Lemma src_facts hs st l : WF st -> Rep hs st -> (forall y, In y (pre_f l) -> In y (pre_f (forest_of st))) ->
+  forall y, In y (pre_f l) -> hch hs (rid y) = map rid (rch y) /\ hinf hs (rid y) = rinfo y.
+Proof. intros W R Sub y Hy. split; [apply (rep_node_children hs st y W R); now apply Sub|apply (rep_info hs st y R); now apply Sub]. Qed.
+
+Theorem sim_op_tree_copy hw w sti : WFw w -> RepW hw w -> Sim (h_op_tree_copy hw sti) (op_tree_copy w sti).
+Proof.
+  intros W RW. unfold h_op_tree_copy, op_tree_copy. assert (G := RepW_get hw w sti RW).
+  destruct (h_get hw sti) as [hs|]; destruct (get_tree w sti) as [st|] eqn:Gst; try contradiction; [|now apply Sim_same].
+  assert (Wst := WFw_tree w sti st W Gst). set (fs := forest_of st).
+  rewrite (rep_typed hs st G), (repw_next hw w RW).
+  destruct (add_from_below (typed st) hs (h_fuel hs) fs 0) with (h := h_empty (typed st) None) (dst := 0) (nx := next w) as (h' & E' & Bl).
+  { apply (rep_children hs st 0 [] fs Wst G); reflexivity. }
+  { apply (src_facts hs st fs Wst G). auto. }
+  { apply (fuel_enough hs st fs Wst G (wf_nodup st Wst)). apply incl_refl. }
+  { destruct W; lia. }
+  rewrite E'. destruct (copy_ids_seq (typed st) None (next w) fs) as (S1 & S2).
+  destruct (copy_f (typed st) None (next w) fs) as [kids n'] eqn:Ec. cbn [fst snd] in *.
+  rewrite register_all_eq. split; [cbn [fst]; now rewrite (RepW_length hw w RW)|]. cbn [snd]. apply RepW_app; [assumption|].
+  apply Rep_new_tree; [assumption|rewrite S1; apply seq_NoDup|]. rewrite S1. intros X. apply in_seq in X. destruct W. lia.
+Qed.
+
+Theorem sim_op_node_copy hw w sti src add_self : WFw w -> RepW hw w -> Sim (h_op_node_copy hw sti src add_self) (op_node_copy w sti src add_self).
+Proof.
+  intros W RW. unfold h_op_node_copy, op_node_copy. assert (G := RepW_get hw w sti RW).
+  destruct (h_get hw sti) as [hs|]; destruct (get_tree w sti) as [st|] eqn:Gst; try contradiction; [|now apply Sim_same].
+  assert (Wst := WFw_tree w sti st W Gst). set (fs := forest_of st).
+  assert (Ls := h_live_ids hs st src Wst G). fold fs in Ls.
+  destruct (get_node src fs) as [s|] eqn:Gn.
+  2:{ replace (h_live hs src) with false; [now apply Sim_same|]. destruct (h_live hs src); [|reflexivity].
+      destruct (get_node_complete src fs (proj1 Ls eq_refl)) as (s & X). congruence. }
+  destruct (get_node_spec src fs s Gn) as (Ps & Rsrc).
+  replace (h_live hs src) with true by (symmetry; apply Ls; rewrite <- Rsrc; unfold ids; now apply in_map). cbn [negb].
+  rewrite (rep_typed hs st G), (repw_next hw w RW).
+  assert (Sub : forall y, In y (pre_f (rch s)) -> In y (pre_f fs)) by (intros y Hy; now apply (pre_f_sub fs s)).
+  assert (NDs := NoDup_ids_sub fs s (wf_nodup st Wst) Ps). rewrite ids_t_unfold in NDs. inversion NDs as [|y ys Nn NDc]; subst y ys.
+  assert (Ic : incl (ids (rch s)) (ids fs)) by (intros x Hx; unfold ids in *; apply in_map_iff in Hx; destruct Hx as (y & <- & Hy); apply in_map; now apply Sub).
+  assert (Hsrc : hch hs src = map rid (rch s)) by (rewrite <- Rsrc; now apply (rep_node_children hs st s Wst G)).
+  assert (Ei : hinf hs src = rinfo s) by (rewrite <- Rsrc; now apply (rep_info hs st s G Ps)).
+  assert (Pos : 0 < next w) by (destruct W; lia).
+  destruct add_self.
+  - (* the node itself becomes the only top node of the new tree *)
+    rewrite Ei. cbn [andb]. cbv beta iota zeta.
+    match goal with |- context [h_init (h_empty (typed st) None) (next w) 0 ?i] => set (inf := i) end.
+    set (a1 := h_register (h_init (h_empty (typed st) None) (next w) 0 inf) (next w)).
+    set (a2 := touch_root (set_chl a1 0 (hch a1 0 ++ [next w])) 0).
+    destruct (add_from_below (typed st) hs (h_fuel hs) (rch s) src Hsrc (src_facts hs st (rch s) Wst G Sub) (fuel_enough hs st (rch s) Wst G NDc Ic)
+               a2 (next w) (S (next w))) as (a3 & E3 & B3); [lia|].
+    rewrite E3. rewrite copy_f_cons. destruct s as [sid si sch] eqn:Es. rewrite copy_t_unfold. cbv zeta. cbn [rch rinfo] in *.
+    destruct (copy_ids_seq (typed st) None (S (next w)) sch) as (S1 & S2).
+    destruct (copy_f (typed st) None (S (next w)) sch) as [kidsc n1] eqn:Ec. cbn [fst snd copy_f] in *.
+    assert (Ek : (if typed st
+                  then map (fun t0 => match t0 with T id i ch => T id (set_kind_i (default_kind st None) i) ch end)
+                         [T (next w) (I (i_obj si) (i_eqc si) (i_hash si) (i_isstr si) (i_name si) (i_did si) (if typed st then i_kind si else None) []) kidsc]
+                  else [T (next w) (I (i_obj si) (i_eqc si) (i_hash si) (i_isstr si) (i_name si) (i_did si) (if typed st then i_kind si else None) []) kidsc])
+                = [T (next w) inf kidsc]).
+    { unfold inf, default_kind. destruct (typed st); reflexivity. }
+    rewrite Ek, register_all_eq. split; [cbn [fst]; now rewrite (RepW_length hw w RW)|]. cbn [snd]. apply RepW_app; [assumption|].
+    assert (Bl : Below (h_empty (typed st) None) a3 0 [T (next w) inf kidsc]).
+    { apply (Below_step (h_empty (typed st) None) 0 (next w) inf kidsc [] a3 a3 n1); auto; try lia.
+      - intros z Hz. rewrite S1 in Hz. apply in_seq in Hz. lia.
+      - intros z [].
+      - apply Below_nil. }
+    apply Rep_new_tree; [exact Bl| |].
+    + rewrite ids_cons. cbn [rid rch]. rewrite ids_nil, app_nil_r, S1. change (NoDup (seq (next w) (S (size_f sch)))). apply seq_NoDup.
+    + rewrite ids_cons. cbn [rid rch]. rewrite ids_nil, app_nil_r, S1. intros [X|X]; [lia|]. apply in_seq in X. lia.
+  - cbn [andb].
+    destruct (add_from_below (typed st) hs (h_fuel hs) (rch s) src Hsrc (src_facts hs st (rch s) Wst G Sub) (fuel_enough hs st (rch s) Wst G NDc Ic)
+               (h_empty (typed st) None) 0 (next w) Pos) as (h' & E' & Bl).
+    rewrite E'. destruct (copy_ids_seq (typed st) None (next w) (rch s)) as (S1 & S2).
+    destruct (copy_f (typed st) None (next w) (rch s)) as [kids n'] eqn:Ec. cbn [fst snd] in *.
+    rewrite register_all_eq. split; [cbn [fst]; now rewrite (RepW_length hw w RW)|]. cbn [snd]. apply RepW_app; [assumption|].
+    apply Rep_new_tree; [assumption|rewrite S1; apply seq_NoDup|]. rewrite S1. intros X. apply in_seq in X. lia.
+Qed.
